@@ -26,7 +26,9 @@ CONSTANTS
     EarlyConnack,  \* TRUE: the broker may send CONNACK at any time while the connection is open
     Faithful,      \* TRUE: the driver services whenever the engine asks and completes writes before time passes
     Which,         \* monitors composed with the engine
-    ExportDepth    \* >0: print the decision history of every state at this depth (script export)
+    KnownRules,    \* monitor rules of findings that are recorded (known_findings.json) rather than repaired: not counted here
+    ExportDepth,   \* >0: export decision histories of states at this depth or deeper (script export) ...
+    ExportEvery    \* ... sampling roughly one state in ExportEvery
 
 VARIABLES es,      \* engine state (Engine!InitState)
           env,     \* environment: driver + broker bookkeeping
@@ -35,7 +37,24 @@ VARIABLES es,      \* engine state (Engine!InitState)
           hist     \* decisions taken so far (observation only; excluded from the VIEW)
 
 vars == <<es, env, mon, last, hist>>
-View == <<es, env, mon>>
+
+\* Operation ids only matter through their relative order (submission order) and identity.  The view
+\* renumbers them by rank, so that histories that differ only in how many internal operations
+\* (CONNECTs, acknowledgements, pings) were created on the way are explored once.
+AllIds(s) == DOMAIN s.ops \cup SeqToSet(s.userQ) \cup SeqToSet(s.resubQ) \cup SeqToSet(s.hpQ) \cup SeqToSet(s.pwcOps)
+             \cup Range(s.alloc) \cup Range(s.pendPub) \cup Range(s.pendNon) \cup {r.id : r \in s.tmos} \cup (IF s.cur = None THEN {} ELSE {s.cur})
+Canon(s) ==
+    LET ids == AllIds(s)
+        rk(id) == Cardinality({x \in ids : x < id}) + 1
+        mapSeq(q) == [i \in 1..Len(q) |-> rk(q[i])]
+        mapFn(f) == [p \in DOMAIN f |-> rk(f[p])]
+    IN [s EXCEPT !.ops = [r \in {rk(id) : id \in DOMAIN s.ops} |-> s.ops[CHOOSE id \in DOMAIN s.ops : rk(id) = r]],
+                 !.userQ = mapSeq(@), !.resubQ = mapSeq(@), !.hpQ = mapSeq(@), !.pwcOps = mapSeq(@),
+                 !.alloc = mapFn(@), !.pendPub = mapFn(@), !.pendNon = mapFn(@),
+                 !.tmos = {[id |-> rk(r.id), at |-> r.at] : r \in @},
+                 !.cur = IF @ = None THEN None ELSE rk(@),
+                 !.nextOp = Cardinality(ids) + 1]
+View == <<Canon(es), env, mon>>
 
 M == INSTANCE Monitors
 
@@ -151,13 +170,14 @@ Plans == {<<>>, <<"c">>, <<"f">>, <<"c", "c">>, <<"c", "f">>, <<"c", "c", "c">>,
 
 Svc(cap) ==
     /\ es.buf = 0 \/ cap = es.cap
+    /\ Faithful => (LET ns == NextServiceTime(es, Now) IN ns # None /\ ns <= Now)
     /\ \E plan \in Plans :
           LET r == Service(es, Now, cap, plan, FALSE, {})
               out == r.s.buf - es.buf
               sv == Ev(es, "Service", [cap |-> cap, pre |-> es.buf, out |-> out, result |-> r.res, state |-> r.s.st, pwc |-> B2I(r.s.pwc)])
           IN /\ r.valid
              /\ Commit([s |-> r.s, res |-> r.res, evs |-> r.evs], <<sv>>, <<>>, env,
-                       [a |-> "Service", cap |-> IF cap = 1 THEN 7 ELSE IF cap = 2 THEN 24 ELSE 4096])
+                       [a |-> "Service", cap |-> IF cap = 1 THEN 5 ELSE IF cap = 2 THEN 12 ELSE 4096])
 
 WriteDone ==
     /\ es.pwc
@@ -319,20 +339,22 @@ Next ==
 Spec == Init /\ [][Next]_vars
 
 ----------------------------------------------------------------------------------------------------
-\* invariants
+\* invariants.  A failing invariant first prints the decision history that led there, so that the
+\* counterexample can be replayed against the real code before anything is concluded from it.
+Guard(name, ok) == ok \/ (PrintT(<<"CEX", name, ToJson(hist)>>) /\ FALSE)
 
 \* C11: no event order reaches a panic site
-NoPanic == ~IsPanic(last.res)
+NoPanic == Guard("NoPanic", ~IsPanic(last.res))
 
 \* the monitors accept every step
-MonitorsQuiet == \A n \in Which : mon[n].errs = <<>>
+MonitorsQuiet == Guard("MonitorsQuiet", \A n \in Which : \A i \in 1..Len(mon[n].errs) : mon[n].errs[i].rule \in KnownRules)
 
-UserOpsTracked == UserOpsTrackedIn(es)
-NoLiveIdTwiceInAQueue == NoLiveIdTwiceIn(es)
-AllocConsistent == AllocConsistentIn(es)
-PendingBound == PendingBoundIn(es)
-ReceiveMaximumRespected == ReceiveMaximumIn(es)
-NoStrandedWork == NoStrandedWorkIn(es)
+UserOpsTracked == Guard("UserOpsTracked", UserOpsTrackedIn(es))
+NoLiveIdTwiceInAQueue == Guard("NoLiveIdTwiceInAQueue", NoLiveIdTwiceIn(es))
+AllocConsistent == Guard("AllocConsistent", AllocConsistentIn(es))
+PendingBound == Guard("PendingBound", PendingBoundIn(es))
+ReceiveMaximumRespected == Guard("ReceiveMaximumRespected", ReceiveMaximumIn(es))
+NoStrandedWork == Guard("NoStrandedWork", NoStrandedWorkIn(es))
 
 \* non-vacuity: every (decision, result) pair and a few deep situations are reported once per worker
 Witnesses ==
@@ -351,6 +373,6 @@ Witnesses ==
     \cup (IF \E e \in SeqToSet(last.evs) : e.ev = "Tx" /\ e.type = "PINGREQ" THEN {<<"ping-sent">>} ELSE {})
 Witness == \A w \in Witnesses : (w \in TLCGet(1)) \/ (PrintT(<<"WITNESS", w>>) /\ TLCSet(1, TLCGet(1) \cup {w}))
 
-\* script export: one line per state at the chosen depth (decision histories are BFS-shortest)
-Export == (ExportDepth > 0 /\ Len(hist) = ExportDepth + 1) => PrintT(<<"SCRIPT", ToJson(hist)>>)
+\* script export: decision histories (BFS-shortest) of a sample of the states at or below the chosen depth
+Export == (ExportDepth > 0 /\ Len(hist) > ExportDepth /\ TLCGet("stats").distinct % ExportEvery = 0) => PrintT(<<"SCRIPT", ToJson(hist)>>)
 =============================================================================
